@@ -3,9 +3,14 @@
 struct Stor { int v; Stor(); template <typename T> Stor(const T &); };
 bool operator==(const Stor & a, const Stor & b);
 bool operator<(const Stor & a, const Stor & b);
+// a Storage whose operator< does not return bool (still 'supports <')
+struct StorI { int v; StorI(); template <typename T> StorI(const T &); };
+bool operator==(const StorI & a, const StorI & b);
+int operator<(const StorI & a, const StorI & b);
+using IdI = eventpp::AnyId<std::hash, StorI>;
 using IdE = eventpp::AnyId<>;
 using IdS = eventpp::AnyId<std::hash, Stor>;
-bool use(const IdE & a, const IdE & b, const IdS & c, const IdS & d) {
-	bool r = (a == b) || (a < b) || (c == d) || (c < d);
+bool use(const IdE & a, const IdE & b, const IdS & c, const IdS & d, const IdI & e, const IdI & f) {
+	bool r = (a == b) || (a < b) || (c == d) || (c < d) || (e == f) || (e < f) || std::hash<IdI>()(e) == 0;
 	return r || std::hash<IdE>()(a) == std::hash<IdS>()(c);
 }
